@@ -1,4 +1,5 @@
 import CifModel.Lemmas.StoreTx
+import CifModel.Lemmas.StoreInv
 /-
   Lemmas/StoreIter — the packet iterator: what `next` delivers, that `update`/`remove` do not disturb the iteration,
   transaction bookkeeping of the iterator calls (used by Props/C06).
@@ -318,5 +319,198 @@ theorem updateValues_only : ∀ (p : List (Str × V)) (d d' : Db) (it : Iter), u
             simp at hb
             exact absurd ⟨hb.1.1, hb.1.2, hb.2⟩ hw1
     · cases h
+
+
+-- ---- a freshly opened iterator is well formed ------------------------------------------------------------------------------------
+
+theorem mem_insertByRow (x y : ValueRow) : ∀ l : List ValueRow, y ∈ Db.insertByRow x l → y = x ∨ y ∈ l
+  | [], h => by simp [Db.insertByRow] at h; exact Or.inl h
+  | z :: zs, h => by
+    unfold Db.insertByRow at h
+    split at h
+    · rcases List.mem_cons.mp h with h | h
+      · exact Or.inl h
+      · exact Or.inr h
+    · rcases List.mem_cons.mp h with h | h
+      · exact Or.inr (by rw [h]; exact List.mem_cons_self)
+      · rcases mem_insertByRow x y zs h with h | h
+        · exact Or.inl h
+        · exact Or.inr (List.mem_cons_of_mem _ h)
+
+theorem insertByRow_pairwise {R : ValueRow → ValueRow → Prop} (hsym : ∀ a b, R a b → R b a) (x : ValueRow) :
+    ∀ l : List ValueRow, (∀ y ∈ l, R x y) → l.Pairwise R → (Db.insertByRow x l).Pairwise R
+  | [], _, _ => by simp [Db.insertByRow]
+  | z :: zs, hx, hp => by
+    unfold Db.insertByRow
+    split
+    · exact List.pairwise_cons.mpr ⟨hx, hp⟩
+    · rw [List.pairwise_cons] at hp ⊢
+      refine ⟨?_, insertByRow_pairwise hsym x zs (fun y hy => hx y (List.mem_cons_of_mem _ hy)) hp.2⟩
+      intro b hb
+      rcases mem_insertByRow x b zs hb with rfl | hb
+      · exact hsym _ _ (hx z List.mem_cons_self)
+      · exact hp.1 b hb
+
+theorem sortByRow_spec {R : ValueRow → ValueRow → Prop} (hsym : ∀ a b, R a b → R b a) :
+    ∀ l : List ValueRow, l.Pairwise R → (l.foldr Db.insertByRow []).Pairwise R ∧ ∀ y ∈ l.foldr Db.insertByRow [], y ∈ l
+  | [], _ => ⟨List.Pairwise.nil, fun _ h => h⟩
+  | x :: xs, hp => by
+    rw [List.pairwise_cons] at hp
+    obtain ⟨ih1, ih2⟩ := sortByRow_spec hsym xs hp.2
+    simp only [List.foldr_cons]
+    refine ⟨insertByRow_pairwise hsym x _ (fun y hy => hp.1 y (ih2 y hy)) ih1, ?_⟩
+    intro y hy
+    rcases mem_insertByRow x y _ hy with rfl | hy
+    · exact List.mem_cons_self
+    · exact List.mem_cons_of_mem _ (ih2 y hy)
+
+theorem mem_takeWhile_pred {α} (p : α → Bool) : ∀ (l : List α) (a : α), a ∈ l.takeWhile p → p a = true
+  | [], a, h => by simp at h
+  | x :: xs, a, h => by
+    rw [List.takeWhile_cons] at h
+    split at h
+    · rename_i hx
+      rcases List.mem_cons.mp h with rfl | h
+      · exact hx
+      · exact mem_takeWhile_pred p xs a h
+    · simp at h
+
+theorem groups_sub : ∀ (l : List ValueRow) (g : List ValueRow), g ∈ groups l →
+    g.Sublist l ∧ ∀ a ∈ g, ∀ b ∈ g, a.rowNum = b.rowNum
+  | [], g, h => by simp [groups] at h
+  | r :: rs, g, h => by
+    rw [groups] at h
+    rcases List.mem_cons.mp h with rfl | h
+    · refine ⟨List.takeWhile_sublist _, ?_⟩
+      intro a ha b hb
+      have h1 := mem_takeWhile_pred _ _ _ ha
+      have h2 := mem_takeWhile_pred _ _ _ hb
+      simp at h1 h2
+      rw [h1, h2]
+    · have ih := groups_sub ((r :: rs).dropWhile (fun x => x.rowNum == r.rowNum)) g h
+      exact ⟨ih.1.trans (List.dropWhile_sublist _), ih.2⟩
+termination_by l => l.length
+decreasing_by
+  simp only [List.dropWhile_cons, beq_self_eq_true, if_true, List.length_cons]
+  have := (List.dropWhile_suffix (fun x : ValueRow => x.rowNum == r.rowNum) (l := rs)).length_le
+  omega
+
+theorem fillPacket_isSome : ∀ (g : List ValueRow) (p : List (Str × V)), (∀ r ∈ g, (r.name, V.unk) ∈ p) →
+    g.Pairwise (fun a b => a.name ≠ b.name) → (fillPacket p g).isSome = true
+  | [], p, _, _ => by simp [fillPacket]
+  | r :: rs, p, hm, hp => by
+    unfold fillPacket
+    rw [List.pairwise_cons] at hp
+    have hany : p.any (fun e => e.1 == r.name && e.2.kindCode == 5) = true := by
+      rw [List.any_eq_true]
+      exact ⟨(r.name, V.unk), hm r List.mem_cons_self, by simp [V.kindCode]⟩
+    simp only [hany, if_true]
+    apply fillPacket_isSome rs _ _ hp.2
+    intro r' hr'
+    rw [List.mem_map]
+    refine ⟨(r'.name, V.unk), hm r' (List.mem_cons_of_mem _ hr'), ?_⟩
+    have : r.name ≠ r'.name := hp.1 r' hr'
+    have : ((r'.name, V.unk).1 == r.name) = false := by simp; exact fun h => this h.symm
+    simp [this]
+
+/-- what cif_loop_get_packets hands out satisfies `Iter.WF` in every state that satisfies the store invariant — so the
+    hypothesis of the C06 theorems holds for every iterator opened in a reachable state -/
+theorem getPackets_wf (s s2 : Store) (l : LH) (it : Iter) (hinv : Inv s.db) (h : getPackets s l = (s2, .ok it)) : it.WF := by
+  unfold getPackets at h
+  have hsame := getNames_same s l
+  split at h
+  · cases h
+  · rename_i s1 names he
+    rw [he] at hsame
+    have hdb : s1.db = s.db := hsame.1
+    have hnames : names = (s.db.loopItems l.cid l.loopNum).map (fun i => (i.name, i.nameOrig)) := by
+      have : (getNames s l).2 = .ok names := by rw [he]
+      simp only [getNames, Store.nestRO] at this
+      have hb : s.beginNest.1.db = s.db := by unfold Store.beginNest; split <;> rfl
+      rw [hb] at this
+      split at this
+      · cases this
+      · simp only [Except.ok.injEq] at this; exact this.symm
+    split at h
+    · cases h
+    · rename_i s2' hbeg
+      obtain ⟨_, hs2⟩ := begin_autocommit s1 s2' hbeg
+      have hdb2 : s2'.db = s.db := by rw [hs2]; exact hdb
+      split at h
+      · cases h
+      · rename_i hrows
+        simp only [Prod.mk.injEq, Except.ok.injEq] at h
+        obtain ⟨_, hit⟩ := h
+        subst hit
+        rw [hdb2] at hrows ⊢
+        have hsym : ∀ a b : ValueRow, ValueKeyNe a b → ValueKeyNe b a := fun a b hab ⟨h1, h2, h3⟩ => hab ⟨h1.symm, h2.symm, h3.symm⟩
+        obtain ⟨hpw, hmem⟩ := sortByRow_spec hsym _ (hinv.valuePK.filter (fun v => v.cid == l.cid && (s.db.loopItems l.cid l.loopNum).any (fun i => i.name == v.name)))
+        refine ⟨?_, ?_, ?_⟩
+        · intro g hg
+          obtain ⟨hsub, hrow⟩ := groups_sub _ g hg
+          unfold fill
+          apply fillPacket_isSome
+          · intro r hr
+            have hr' := hmem r (hsub.subset hr)
+            obtain ⟨_, hk⟩ := List.mem_filter.mp hr'
+            simp only [Bool.and_eq_true, List.any_eq_true] at hk
+            obtain ⟨_, i, hi, hik⟩ := hk
+            have hin : i.name = r.name := by simpa using hik
+            rw [hnames]
+            simp only [List.map_map, List.mem_map]
+            exact ⟨i, hi, by simp [Function.comp, hin]⟩
+          · have hpg := hpw.sublist hsub
+            refine hpg.imp_of_mem ?_
+            intro a b ha hb hab hname
+            have ha' := (List.mem_filter.mp (hmem a (hsub.subset ha))).2
+            have hb' := (List.mem_filter.mp (hmem b (hsub.subset hb))).2
+            simp only [Bool.and_eq_true] at ha' hb'
+            have hca : a.cid = l.cid := by simpa using ha'.1
+            have hcb : b.cid = l.cid := by simpa using hb'.1
+            exact hab ⟨by rw [hca, hcb], hname, hrow a ha b hb⟩
+        · intro r hr
+          exact hinv.rowPos r (List.mem_filter.mp (hmem r hr)).1
+        · show false = (s.db.loopValues l.cid l.loopNum).isEmpty
+          cases hl : s.db.loopValues l.cid l.loopNum with
+          | nil => exact absurd hl hrows
+          | cons a as => rfl
+
+
+theorem getPackets_names (s s2 : Store) (l : LH) (it : Iter) (h : getPackets s l = (s2, .ok it)) :
+    it.names = (s.db.loopItems l.cid l.loopNum).map (·.name) ∧ it.cid = l.cid ∧ it.loopNum = l.loopNum := by
+  unfold getPackets at h
+  split at h
+  · cases h
+  · rename_i s1 names he
+    have hnames : names = (s.db.loopItems l.cid l.loopNum).map (fun i => (i.name, i.nameOrig)) := by
+      have : (getNames s l).2 = .ok names := by rw [he]
+      simp only [getNames, Store.nestRO] at this
+      have hb : s.beginNest.1.db = s.db := by unfold Store.beginNest; split <;> rfl
+      rw [hb] at this
+      split at this
+      · cases this
+      · simp only [Except.ok.injEq] at this; exact this.symm
+    split at h
+    · cases h
+    · split at h
+      · cases h
+      · simp only [Prod.mk.injEq, Except.ok.injEq] at h
+        obtain ⟨_, hit⟩ := h
+        subst hit
+        refine ⟨?_, rfl, rfl⟩
+        simp only [hnames, List.map_map]
+        rfl
+
+/-- the items named by a fresh iterator exist (the hypothesis of `C06_state_machine`) -/
+theorem getPackets_items (s s2 : Store) (l : LH) (it : Iter) (h : getPackets s l = (s2, .ok it)) :
+    ∀ k ∈ it.names, s.db.hasItem it.cid k = true := by
+  obtain ⟨hn, hc, _⟩ := getPackets_names s s2 l it h
+  intro k hk
+  rw [hn] at hk
+  obtain ⟨i, hi, rfl⟩ := List.mem_map.mp hk
+  obtain ⟨him, hkey⟩ := List.mem_filter.mp hi
+  simp at hkey
+  rw [hc]
+  exact (hasItem_iff s.db _ _).mpr ⟨i, him, hkey.1, rfl⟩
 
 end CifModel.Store
